@@ -237,6 +237,17 @@ def gen_case_forall_disj(rng):
     ops = ['==', '!=', '<', '>=', '>']
     x, y = rng.sample([1, 2], 2)
     disj = ['or', ['cmp', rng.choice(ops), fa(y), fa(9)], ['cmp', rng.choice(ops), fa(x), fa(9)], rng.choice(['fn', 'op'])]
+    if rng.random() < 0.25:
+        # the condition does not mention the universal variable at all: every pass sees the same rows (whatever state a pass
+        # leaves in the operators below the condition's root must not leak into the next one)
+        disj = ['or', ['cmp', rng.choice(ops), fa(y), ['lit', rng.randint(0, 2)]], ['cmp', rng.choice(ops), fa(x), fa(y)], rng.choice(['fn', 'op'])]
+        body = rng.choice([['and', disj, ['cmp', '>=', fa(rng.choice([1, 2])), ['lit', 0]], 'fn'],
+                           ['and', ['cmp', '>=', fa(rng.choice([1, 2])), ['lit', 0]], disj, 'fn'], disj])
+        doms = [[1, rng.sample(range(nobj), rng.randint(2, 3))], [2, rng.sample(range(nobj), rng.randint(2, 3))],
+                [9, rng.sample(range(nobj), rng.randint(2, 3))]]
+        sel = [['var', 1], ['var', 2]]
+        rng.shuffle(sel)
+        return dict(heap=heap, doms=doms, binders=[['var', 1], ['var', 2]], sel=sel, cond=['forall', 9, body], form='set_of')
     r = rng.random()
     if r < 0.45:
         body = disj
@@ -354,7 +365,7 @@ def gen_case_forall(rng, tier):
         return dict(heap=heap, doms=doms, binders=[['var', 1], ['var', 2]], sel=sel, cond=['forall', 9, body], form='set_of')
     if rng.random() < 0.1:
         return gen_case_forall_eq(rng)
-    if rng.random() < 0.2:
+    if rng.random() < 0.3:
         return gen_case_forall_disj(rng)
     if rng.random() < 0.15:
         return gen_case_forall_projection(rng)
@@ -877,6 +888,26 @@ def gen_case_negated_conjunction(rng, tier=None):
     return dict(heap=heap, doms=doms, binders=[['var', 1], ['var', 2]], sel=sel, cond=cond, form='set_of')
 
 
+def gen_case_membership_disjunction(rng, tier=None):
+    """or_(contains(x.items, item), <other condition on x>) (also in_(item, x.items)): the membership test is the LEFT alternative, some
+    objects have an EMPTY collection (a falsy container is a container like any other) and qualify through the other alternative"""
+    nobj = rng.randint(3, 6)
+    heap = gen_heap(rng, nobj, True)
+    for o in heap:
+        o[0] = rng.choice([0, 0, 1, 2])
+        o[3] = [] if rng.random() < 0.5 else [rng.randint(0, 2) for _ in range(rng.randint(1, 2))]
+        o[8] = o[0] >= 2
+    dom = rng.sample(range(nobj), rng.randint(2, nobj))
+    items = ['map', ['f', F['items']], ['var', 1]]
+    item = rng.choice([['lit', rng.randint(0, 2)], ['map', ['f', F['a']], ['var', 1]], ['map', ['f', F['b']], ['var', 1]]])
+    mem = ['contains', items, item] if rng.random() < 0.5 else ['in', item, items]
+    other = ['cmp', rng.choice(['==', '!=', '<=']), ['map', ['f', F['a']], ['var', 1]], ['lit', rng.randint(0, 1)]]
+    cond = ['or', mem, other, rng.choice(['fn', 'op'])]
+    if rng.random() < 0.3:
+        cond = ['and', cond, ['cmp', '>=', ['map', ['f', F['b']], ['var', 1]], ['lit', 0]], 'fn']
+    return dict(heap=heap, doms=[[1, dom]], binders=[['var', 1]], sel=[['var', 1]], cond=cond, form=rng.choice(['entity', 'set_of']))
+
+
 def gen_pair(rng, tier):
     nv = rng.choice([1, 2, 2, 3])
     orig = gen_case(rng, nvars=nv, falsy=True, neg=True, maxdepth=3, select=rng.choice(['all', 'some']), dom_max=3)
@@ -904,6 +935,22 @@ def gen_pair(rng, tier):
                     binders=[['var', k] for k in sorted((x, z))], sel=[['var', x]],
                     cond=['or', conj, other, rng.choice(['fn', 'op'])] if rng.random() < 0.8 else ['or', other, conj, 'fn'],
                     form=rng.choice(['entity', 'set_of']))
+    if rng.random() < 0.1:
+        # a selected EXPRESSION over a variable that no condition binds, the variable itself selected too (before or after it, the
+        # variant permutes the selection): the expression must stay with the value of the variable it was read from
+        nobj = rng.randint(3, 6)
+        heap = gen_heap(rng, nobj, True)
+        for i, o in enumerate(heap):
+            o[0], o[1] = i % 3, (i + 1) % 3
+            o[8] = o[0] >= 2
+        cy = ['cmp', rng.choice(['==', '!=', '>=']), ['map', ['f', F[rng.choice('ab')]], ['var', 2]], ['lit', rng.randint(0, 2)]]
+        sel = [['map', ['f', F[rng.choice('ab')]], ['var', 1]], ['var', 1]] + ([['var', 2]] if rng.random() < 0.7 else [])
+        rng.shuffle(sel)
+        orig = dict(heap=heap, doms=[[1, rng.sample(range(nobj), rng.randint(2, 3))], [2, rng.sample(range(nobj), rng.randint(1, 3))]],
+                    binders=[['var', 1], ['var', 2]], sel=sel, cond=cy if rng.random() < 0.8 else None, form='set_of')
+        if orig['cond'] is None or not any(t == ['var', 2] for t in sel):
+            orig['doms'], orig['binders'] = ([orig['doms'][0]], [['var', 1]]) if orig['cond'] is None else (orig['doms'], orig['binders'])
+            orig['sel'] = [t for t in sel if t != ['var', 2]] if orig['cond'] is None else sel
     if rng.random() < 0.15:
         # projections over deeply nested and_/or_ (what an operator drops as a duplicate depends on how the query is written)
         orig = gen_case_dedup(rng, tier)
